@@ -25,6 +25,8 @@ func c16(p *core.Program, r *core.Report) {
 	c16RowsFromKeys(p, r)
 	r.Rule("R6", "the filter flows down the levels: in newGroupByIterator every assignment that narrows rows[i].row by rows[i-1].row lies on a path where the filter was already intersected into rows[0].row, or was tested to be nil")
 	c16FilterFlowsDown(p, r)
+	r.Rule("R7", "GroupBy paging: every cut of the result that depends on the limit argument and happens before the offset is applied (the limit handed to mergeGroupCounts, the bound of the per-shard collecting loop) also depends on the offset argument; the final slicing by offset and limit happens only on paths where opt.Remote was tested false")
+	c16GroupByPaging(p, r)
 	r.NotDecided = "Rows paging and merge limits, the intersections computed by the GroupBy iterator, time-range handling: value/iteration logic"
 	pk := p.Pkg("")
 	if pk == nil {
